@@ -240,6 +240,25 @@ async fn run_async(case: &Case, fx: &Fixture) -> CaseResult {
             }
             Ok(TreeNodeRecursion::Continue)
         });
+        // recorded finding: predicates (NOT / IS [NOT] x / IN / LIKE / BETWEEN) printed bare as operands of IS-tests and comparisons
+        let mut bare_operand = false;
+        let _ = plan.apply_with_subqueries(|n| {
+            for e in n.expressions() {
+                let _ = e.apply(|x| {
+                    let pred = |y: &Expr| matches!(y, Expr::Not(_) | Expr::IsNull(_) | Expr::IsNotNull(_) | Expr::IsTrue(_) | Expr::IsFalse(_) | Expr::IsUnknown(_) | Expr::IsNotTrue(_) | Expr::IsNotFalse(_) | Expr::IsNotUnknown(_) | Expr::InList(_) | Expr::Like(_) | Expr::SimilarTo(_) | Expr::Between(_));
+                    match x {
+                        Expr::IsNull(c) | Expr::IsNotNull(c) | Expr::IsTrue(c) | Expr::IsFalse(c) | Expr::IsUnknown(c) | Expr::IsNotTrue(c) | Expr::IsNotFalse(c) | Expr::IsNotUnknown(c) if matches!(c.as_ref(), Expr::Not(_)) => bare_operand = true,
+                        Expr::BinaryExpr(b) if b.op.supports_propagation() && (pred(&b.left) || pred(&b.right)) => bare_operand = true,
+                        _ => {}
+                    }
+                    Ok(TreeNodeRecursion::Continue)
+                });
+            }
+            Ok(TreeNodeRecursion::Continue)
+        });
+        if bare_operand {
+            return known_violation(&["unparser-missing-parentheses-around-predicate-operand"], format!("the unparsed SQL returns other rows (plan holds a predicate as operand of an IS-test / comparison, printed without parentheses): {d}{}", ctxt())).labels(labels);
+        }
         if null_equal_join && !text.contains("IS NOT DISTINCT FROM") {
             return known_violation(&["unparser-null-equal-join-keys-become-plain-equality"], format!("the unparsed SQL returns other rows (plan has a join with null-equal keys, the text has none): {d}{}", ctxt())).labels(labels);
         }
